@@ -40,10 +40,14 @@ type cqWatch struct {
 
 // cqScenario: a queue with limit lim and initial jobs init; prods[p] is the list of batches
 // producer p enqueues (one Enqueue call per batch); jobs are small distinct integers.
+// nils lists the jobs that are handed over as a nil func (a legal job: the worker skips the call,
+// queue.go `if job != nil`); such a job keeps its id in init / prods, but it has no body, so it is
+// never seen entering or leaving.
 type cqScenario struct {
 	Lim   int       `json:"lim"`
 	Init  []int     `json:"init"`
 	Prods [][][]int `json:"prods"`
+	Nils  []int     `json:"nils"`
 	Wic   cqWait    `json:"wic"`
 	Wsc   cqWatch   `json:"wsc"`
 	Burst bool      `json:"burst,omitempty"` // M2: producers and the WaitIdle caller run freely in parallel
@@ -68,7 +72,8 @@ type cqDriver struct {
 	q        *conc.ConcurrentQueue
 	mu       sync.Mutex
 	building bool
-	actorJob map[string]int // worker actor -> job it ran last
+	actorJob map[string]int // worker actor -> job it ran last (no entry: it was given a nil job, or none yet)
+	isNil    map[int]bool
 	clients  map[*sched.Actor]bool
 	wi, ws   cqWaiter
 	errCh    chan error
@@ -81,7 +86,7 @@ func init() { Register("conc", func() Driver { return &cqDriver{} }) }
 
 func genConc(x *sched.Exec) cqScenario {
 	r := x.Rng
-	sc := cqScenario{Init: []int{}}
+	sc := cqScenario{Init: []int{}, Nils: []int{}}
 	switch k := r.Intn(10); {
 	case k < 2:
 		sc.Lim = 0
@@ -122,6 +127,51 @@ func genConc(x *sched.Exec) cqScenario {
 		p := r.Intn(np)
 		sc.Prods[p] = append(sc.Prods[p], []int{}) // Enqueue() with no jobs
 	}
+	// nil jobs.  One scenario in seven has the shape "a nil job in the backlog with jobs behind it":
+	// limit 1 or 2, the slots are taken by the initial jobs (or, half of the time, by whatever comes
+	// first), and one Enqueue call hands over 3..4 jobs with a nil that is not the last one.
+	// Two scenarios in seven mark every job as nil with probability 1/4 (any position: started
+	// directly, in the constructor's list, head / middle / tail of the backlog, several in a row).
+	switch k := r.Intn(7); {
+	case k == 0:
+		sc.Lim = 1 + r.Intn(2)
+		sc.Init = []int{}
+		next = 1
+		if r.Intn(2) == 0 {
+			for ; next <= sc.Lim; next++ {
+				sc.Init = append(sc.Init, next)
+			}
+		}
+		sc.Prods = [][][]int{{}, {}}
+		if next == 1 && r.Intn(2) == 0 {
+			sc.Prods[1] = append(sc.Prods[1], []int{next})
+			next++
+		}
+		n := 3 + r.Intn(2)
+		b := []int{}
+		for i := 0; i < n; i++ {
+			b = append(b, next+i)
+		}
+		sc.Nils = append(sc.Nils, next+r.Intn(n-1))
+		if r.Intn(3) == 0 {
+			if j := next + r.Intn(n); j != sc.Nils[0] {
+				sc.Nils = append(sc.Nils, j)
+			}
+		}
+		next += n
+		sc.Prods[0] = append(sc.Prods[0], b)
+		for ; next <= 6 && r.Intn(2) == 0; next++ {
+			p := r.Intn(2)
+			sc.Prods[p] = append(sc.Prods[p], []int{next})
+		}
+		sort.Ints(sc.Nils)
+	case k < 3:
+		for j := 1; j <= total; j++ {
+			if r.Intn(4) == 0 {
+				sc.Nils = append(sc.Nils, j)
+			}
+		}
+	}
 	sc.Wic = cqWait{On: r.Intn(5) != 0, ErrCh: []string{"none", "none", "err", "nil", "close"}[r.Intn(5)], Cancel: r.Intn(2) == 0}
 	sc.Wsc = cqWatch{On: r.Intn(4) != 0, Script: []string{}, Cancel: r.Intn(2) == 0}
 	for n := r.Intn(5); n > 0; n-- {
@@ -135,14 +185,37 @@ func genConc(x *sched.Exec) cqScenario {
 		sc.Burst = true
 		sc.Init = []int{}
 		sc.Prods = [][][]int{{}, {}, {}}
+		sc.Nils = []int{}
 		for j := 1; j <= 9+r.Intn(6); j++ {
 			p := r.Intn(3)
 			sc.Prods[p] = append(sc.Prods[p], []int{j})
+			if r.Intn(6) == 0 {
+				sc.Nils = append(sc.Nils, j) // a nil func among the jobs
+			}
 		}
 		sc.Wic = cqWait{On: true, ErrCh: "none"}
 		sc.Wsc = cqWatch{On: false, Script: []string{}}
 	}
 	return sc
+}
+
+// fn is what is handed to the library for job j: the harness-owned function, or a nil func.
+func (d *cqDriver) fn(j int) func() {
+	if d.isNil[j] {
+		return nil
+	}
+	return d.job(j)
+}
+
+// nilsOf lists the nil jobs among b (in the order of b).
+func (d *cqDriver) nilsOf(b []int) []int {
+	out := []int{}
+	for _, j := range b {
+		if d.isNil[j] {
+			out = append(out, j)
+		}
+	}
+	return out
 }
 
 // job builds harness-owned job j. The worker goroutine parks before anything observable happens
@@ -198,6 +271,13 @@ func (d *cqDriver) Run(x *sched.Exec, raw json.RawMessage) json.RawMessage {
 	if d.sc.Wsc.Script == nil {
 		d.sc.Wsc.Script = []string{}
 	}
+	if d.sc.Nils == nil {
+		d.sc.Nils = []int{}
+	}
+	d.isNil = map[int]bool{}
+	for _, j := range d.sc.Nils {
+		d.isNil[j] = true
+	}
 	used, _ := json.Marshal(d.sc)
 	if x.LogSteps && !d.sc.Burst {
 		x.Log(trace.E{"ev": "scen", "k": d.sc.XK})
@@ -216,12 +296,12 @@ func (d *cqDriver) Run(x *sched.Exec, raw json.RawMessage) json.RawMessage {
 
 	var initJobs []func()
 	for _, j := range d.sc.Init {
-		initJobs = append(initJobs, d.job(j))
+		initJobs = append(initJobs, d.fn(j))
 	}
 	d.building = true
 	d.q = conc.NewConcurrentQueue(d.sc.Lim, initJobs...)
 	d.building = false
-	x.Log(trace.E{"ev": "new", "limit": d.sc.Lim, "jobs": d.sc.Init})
+	x.Log(trace.E{"ev": "new", "limit": d.sc.Lim, "jobs": d.sc.Init, "nils": d.nilsOf(d.sc.Init)})
 
 	for p, batches := range d.sc.Prods {
 		name := fmt.Sprintf("p%d", p+1)
@@ -232,9 +312,9 @@ func (d *cqDriver) Run(x *sched.Exec, raw json.RawMessage) json.RawMessage {
 			c.Prog = append(c.Prog, sched.Op{Label: "call:" + name, Do: func() {
 				var fns []func()
 				for _, j := range b {
-					fns = append(fns, d.job(j))
+					fns = append(fns, d.fn(j))
 				}
-				x.Log(trace.E{"ev": "call", "op": "enq", "c": name, "jobs": b})
+				x.Log(trace.E{"ev": "call", "op": "enq", "c": name, "jobs": b, "nils": d.nilsOf(b)})
 				q, r := d.q.Enqueue(fns...)
 				x.Log(trace.E{"ev": "ret", "op": "enq", "c": name, "q": q, "r": r})
 			}})
@@ -296,15 +376,35 @@ func (d *cqDriver) Run(x *sched.Exec, raw json.RawMessage) json.RawMessage {
 	}
 	moves := func() []sched.Move {
 		var ms []sched.Move
+		nilWorkers := 0
 		for _, a := range x.ParkedActors() {
 			a := a
 			label := "grant:" + a.Name
-			if !d.clients[a] {
+			worker := !d.clients[a]
+			if worker {
+				// a worker at the lock: named after the job it has just run. A worker that reaches the
+				// lock without having run a job since its last critical section (or at all) was given a
+				// nil job; which one cannot be known here and makes no difference: "wcs:nil", and
+				// "wcs:nil#2".. for further ones (registration order), so that labels stay unique.
 				d.mu.Lock()
-				label = fmt.Sprintf("wcs:j%d", d.actorJob[a.Name])
+				j := d.actorJob[a.Name]
 				d.mu.Unlock()
+				if j != 0 {
+					label = fmt.Sprintf("wcs:j%d", j)
+				} else if nilWorkers++; nilWorkers == 1 {
+					label = "wcs:nil"
+				} else {
+					label = fmt.Sprintf("wcs:nil#%d", nilWorkers)
+				}
 			}
-			ms = append(ms, sched.Move{Label: label, Actor: a.Name, Do: func() { x.Grant(a) }})
+			ms = append(ms, sched.Move{Label: label, Actor: a.Name, Do: func() {
+				if worker {
+					d.mu.Lock()
+					delete(d.actorJob, a.Name) // through with that job: whatever it runs next registers itself
+					d.mu.Unlock()
+				}
+				x.Grant(a)
+			}})
 		}
 		ms = append(ms, x.ClientMoves()...)
 		for _, p := range x.UserParks() {
